@@ -14,6 +14,7 @@ type Violation struct {
 	Key    string      `json:"key"`
 	Detail string      `json:"detail"`
 	Case   interface{} `json:"case"`
+	Part   string      `json:"part,omitempty"` // harness function that produced it
 }
 
 type Report struct {
@@ -74,7 +75,10 @@ func (m *Merged) add(r *Report, tag string) {
 	for k, v := range r.ViolationKeys {
 		m.ViolationKeys[k] += v
 	}
-	m.Violations = append(m.Violations, r.Violations...)
+	for _, v := range r.Violations {
+		v.Part = r.Check
+		m.Violations = append(m.Violations, v)
+	}
 	if len(m.Samples) < 6 {
 		for _, s := range r.Samples {
 			if len(m.Samples) < 6 {
